@@ -71,7 +71,7 @@ Definition emission_of (vc : vcase) : emission :=
   let e := vc_env vc in let shell := vc_shell vc in let word := vc_word vc in
   let E := stage_values e shell word (vc_meta vc) (vc_values vc) in
   if is_sh shell s_bash then
-    let vs := map (fun v => set_value v (trim_prefix (value v) (wbp (fe e)))) E in
+    let vs := map (fun v => set_value v (match_trim (ci e) (value v) (wbp (fe e)))) E in    (* the part bash keeps is matched the way the word was *)
     let last_segment := trim_prefix word (wbp (fe e)) in
     let collapse := (1 <? length vs) && negb (str_eqb (common_prefix_of display vs) []) in
     if collapse && negb (str_eqb last_segment (common_prefix_of value vs)) then ECollapsed (common_prefix_of value vs)
@@ -242,7 +242,7 @@ Definition c02_checks (vc : vcase) (ds : list drec) : list str :=
        if (unf || extends (ci e) (value c) (vc_word vc)) && negb (has_c0 (value c))
           && negb (is_sh sh s_powershell && str_eqb (value c) [])
           && negb (is_sh sh s_ion && has_suffix (strip3 (value c)) (B [32]))
-       then if existsb (fun w => eq3 w (trim_prefix (value c) pre)) rec then [] else [tag3 C02 k_complete sh (value c)]
+       then if existsb (fun w => eq3 w (match_trim (ci e) (value c) pre)) rec then [] else [tag3 C02 k_complete sh (value c)]
        else []) (vc_values vc)
    else []).
 
